@@ -48,6 +48,18 @@ package logic
 //   "invalid Box reference", "not a valid foreign ... slot", "is not an Address in tx.Access")
 //   inside MUST. All other errors are ordinary run-time matters.
 //
+//   Bracket: an asset operand that is literally 0 in access-list mode. Id 0 names no asset;
+//   availableAsset(0) is true there as soon as the list holds a non-asset entry (rr.Asset == 0
+//   matches), the opcode then reports "does not exist" / itxn_field accepts 0. Nothing is read, so
+//   nothing is demanded (mentioned in the report as an observation, not a finding).
+//
+// Detection (bin/mut ... --only, quick tier; all DETECTED):
+//   1. resources.go allowsHolding also true when account and asset are each available  -> access-outside-MAY:holding
+//   2. resources.go fillApplicationCallForeign ignores the app index of a box reference -> outside-MAY:box + inside-MUST
+//   3. eval.go      availableAccount honours group-shared accounts from v6 instead of v9 -> access-outside-MAY:acct
+//   4. resources.go fillApplicationCallAccess no longer shares (sender, app) locals     -> unavailable-inside-MUST:local
+//   5. resources.go allowsHolding: created asset usable with ANY account                -> access-outside-MAY:holding
+//
 // Not covered: inner-transaction submission (`itxn_submit` cross-product checks of allows*),
 // inner app calls, ClearState programs, UnnamedResources (simulation), value correctness of reads.
 //
@@ -1112,10 +1124,15 @@ func c35Orders[T any](u []T) [][]T {
 	if len(u) == 2 {
 		out = append(out, []T{u[0], u[1]})
 		if ve.Thorough() {
-			out = append(out, []T{u[1], u[0]})
+			out = append(out, []T{u[1], u[0]}) // reversed order: last element, thorough tier only
 		}
 	}
 	return out
+}
+
+// c35Reversed reports whether l is the reversed two-element order of u.
+func c35Reversed[T comparable](l, u []T) bool {
+	return len(l) == 2 && len(u) == 2 && l[0] == u[1] && l[1] == u[0]
 }
 
 func c35ForeignConfigs() []transactions.SignedTxn {
@@ -1296,6 +1313,23 @@ func TestVerif_C35(t *testing.T) {
 				}
 			}
 		}
+	}
+	{
+		// quick-tier work first, so that a capped thorough run still covers the quick bound
+		isQuick := func(w work) bool {
+			if w.v == 11 {
+				return false
+			}
+			if c35Reversed(w.e.Txn.Accounts, []basics.Address{c35A, c35B}) || c35Reversed(w.e.Txn.ForeignAssets, []basics.AssetIndex{c35X, c35Y}) ||
+				c35Reversed(w.e.Txn.ForeignApps, []basics.AppIndex{c35P, c35Q}) {
+				return false
+			}
+			if w.mode == "access" && (!quickCtx[c35Contexts[w.ctx].name] || (w.v != 9 && w.v != LogicVersion)) {
+				return false
+			}
+			return true
+		}
+		sort.SliceStable(items, func(i, j int) bool { return isQuick(items[i]) && !isQuick(items[j]) })
 	}
 	r.Set("configurations_foreign", len(foreign))
 	r.Set("configurations_boxes", len(boxcfg))
